@@ -28,11 +28,13 @@ type Call struct {
 	cancel context.CancelFunc
 	done   chan struct{}
 
-	Resp   *gpb.SetResponse
-	RbResp *adminapi.RollbackResponse
-	Err    error
-	Panic  any
-	Stack  string
+	// RawWatch: no buffer between the store's Watch and this handler (see nbWatch)
+	RawWatch bool
+	Resp     *gpb.SetResponse
+	RbResp   *adminapi.RollbackResponse
+	Err      error
+	Panic    any
+	Stack    string
 
 	mu        sync.Mutex
 	TxID      configapi.TransactionID
@@ -102,7 +104,13 @@ func (w *World) nbAfterCreate(ctx context.Context, t *configapi.Transaction) {
 // store's event pump (DESIGN.md §6 row 5); C08 and C15 observe the raw behaviour.
 func (w *World) nbWatch(ctx context.Context, ch chan<- configapi.TransactionEvent, opts ...txstore.WatchOption) error {
 	c := callOf(ctx)
-	pch := make(chan configapi.TransactionEvent, 4096)
+	size := 4096
+	if c != nil && c.RawWatch {
+		// the store sees this consumer as it is: nothing is taken from the channel while the handler is held
+		// back, the store's goroutines wait (or whatever they do instead) until it reads again
+		size = 0
+	}
+	pch := make(chan configapi.TransactionEvent, size)
 	pctx, pcancel := context.WithCancel(context.Background())
 	if err := w.St.Tx.Watch(pctx, pch, opts...); err != nil {
 		pcancel()
